@@ -5,6 +5,7 @@
 package c09
 
 import (
+	"bytes"
 	"encoding/hex"
 	"encoding/json"
 	"fmt"
@@ -568,6 +569,9 @@ func TestReplayCase(t *testing.T) {
 	c := &Case{}
 	if err := json.Unmarshal(b, c); err != nil {
 		t.Fatalf("bad case file: %v", err)
+	}
+	if c.Target == "" && bytes.Contains(b, []byte(`"answers"`)) {
+		t.Skip("a download script, not a Case: see TestReplayDownload")
 	}
 	c.fromOK = c.NMut > 0
 	r := exec(t, c, false)
